@@ -156,6 +156,23 @@ def random_case(rng, task, n_vocab=None, n_clips=None):
                 box_ = (base, base + 1.0, 1000.0, 3000.0)
                 clip["events"] += [{"kind": "ann", "geom": geoms.geom_in_box(rng, kind, *box_), "ann_tags": _true_tags(rng, vocab, pool)}]
                 clip["events"] += [{"kind": "pred", "geom": geoms.geom_in_box(rng, kind, *box_), "pred_tags": _pred_tags(rng, vocab, pool), "pred_score": 0.5} for _ in range(rng.choice([2, 3]))]
+            if rng.random() < 0.12:
+                # onset / segment detection: a clip whose events are ALL time-only, annotated and predicted segments back to
+                # back on a centisecond grid (end of one == start of the next: they touch, they do not overlap) plus a
+                # few that do overlap
+                clip["events"] = []
+                b = [round(rng.choice([0.0, 1.16, 12.3]) , 2)]
+                for _ in range(rng.choice([6, 12, 24])):
+                    b.append(round(b[-1] + rng.randint(1, 400) / 100.0, 2))
+                for i in range(len(b) - 1):
+                    iv = {"type": "TimeInterval", "coordinates": [b[i], b[i + 1]]}
+                    if i % 2 == 0:
+                        clip["events"].append({"kind": "ann", "geom": iv, "ann_tags": _true_tags(rng, vocab, pool)})
+                    else:
+                        clip["events"].append({"kind": "pred", "geom": iv, "pred_tags": _pred_tags(rng, vocab, pool), "pred_score": 0.5})
+                    if rng.random() < 0.2:
+                        ov = {"type": "TimeInterval", "coordinates": [round(b[i] + 0.01, 2), round(b[i + 1] + 0.37, 2)]} if rng.random() < 0.7 else {"type": "TimeStamp", "coordinates": b[i]}
+                        clip["events"].append({"kind": "pred" if i % 2 == 0 else "ann", "geom": ov, "pred_tags": _pred_tags(rng, vocab, pool), "ann_tags": _true_tags(rng, vocab, pool), "pred_score": 0.5})
             rng.shuffle(clip["events"])
         clips.append(clip)
     if not any(c["only"] == "both" for c in clips):
